@@ -20,6 +20,7 @@ EXPLANATION = (
     "a two-word bitmap) must lie inside [first, first+count) of the command whose answer it is decoded from. The quick tier "
     "collapses configurations with equal predicate vectors; the thorough tier enumerates every tag. Exhaustive over the extracted "
     "space; that real firmware answers full-length blocks is assumed."
+    ' (R0) the window argument is about the fetched block: trim_response must cut header and checksum by constants, a bound computed from unchecked response bytes is a violation.'
 )
 
 
